@@ -88,6 +88,7 @@ func lemmaUnit(ld *Loader, cs *ContractSet, l *Lemma) (u *Unit) {
 	}()
 	g := newGen(ld, cs, nil, nil)
 	g.pass = 2
+	g.registerAxioms()
 	fc := &FnCtx{g: g, prefix: "", closures: map[ssa.Value]*closureInfo{}, params: map[string]Val{}}
 	st := g.initialState()
 	fc.entry, fc.cur, fc.curReach = st, st, "true"
